@@ -36,6 +36,9 @@ static std::optional<Failure> check_one(Run &R, const Bytes &u) {
         return std::nullopt;
     }
     const Bytes &a = t.out;
+    // an A-form that begins with '[' (ignorable code points in front of a bracket) is no host name in A-label spelling but the
+    // syntax of an address literal, which the library dispatches differently: outside "domains made of IDNA2008-valid labels"
+    if (!a.empty() && a[0] == '[') { R.count("a-form-looks-like-a-literal(not judged)"); return std::nullopt; }
     bool converted = a != u;
     if (converted) { R.nontrivial(hashs(u)); R.count(ascii ? "ascii-mapped(case)" : "converted"); if (!ascii) R.sample("converted", show(u) + " -> " + a, 4); }
     else R.count("unchanged");
